@@ -1,0 +1,436 @@
+//go:build verif
+
+// Command loxverif is the verification hook binary: it runs pieces of the
+// generator on request and dumps their intermediate results as JSON. It is
+// only built with the "verif" build tag.
+package main
+
+import (
+	"bufio"
+	"encoding/json"
+	"fmt"
+	gotoken "go/token"
+	"os"
+	"path/filepath"
+	"sort"
+	"strings"
+
+	"github.com/dcaiafa/lox/internal/ast"
+	"github.com/dcaiafa/lox/internal/base/array"
+	"github.com/dcaiafa/lox/internal/base/errlogger"
+	"github.com/dcaiafa/lox/internal/codegen"
+	"github.com/dcaiafa/lox/internal/lexergen/dfa"
+	"github.com/dcaiafa/lox/internal/lexergen/mode"
+	"github.com/dcaiafa/lox/internal/lexergen/nfa"
+	"github.com/dcaiafa/lox/internal/lexergen/rang3"
+	"github.com/dcaiafa/lox/internal/parser"
+	"github.com/dcaiafa/lox/internal/parsergen/lr1"
+)
+
+type jTerm struct {
+	T bool `json:"t"` // terminal?
+	I int  `json:"i"`
+}
+
+type jProd struct {
+	Index int     `json:"index"`
+	Rule  int     `json:"rule"`
+	Terms []jTerm `json:"terms"`
+	Prec  int     `json:"prec"`
+	Assoc int     `json:"assoc"`
+	Line  int     `json:"line"`
+}
+
+type jRule struct {
+	Index int    `json:"index"`
+	Name  string `json:"name"`
+	Prods []int  `json:"prods"`
+	Kind  string `json:"kind"`
+	First []int  `json:"first"` // First(g,[rule]); -1 stands for epsilon
+}
+
+type jTerminal struct {
+	Index int    `json:"index"`
+	Name  string `json:"name"`
+	Alias string `json:"alias"`
+}
+
+type jAct struct {
+	Type  int   `json:"type"` // 0 shift 1 reduce 2 accept
+	Shift int   `json:"shift"`
+	Prods []int `json:"prods"`
+}
+
+type jActRow struct {
+	Term int    `json:"term"`
+	Acts []jAct `json:"acts"`
+}
+
+type jTrans struct {
+	Sym jTerm `json:"sym"`
+	To  int   `json:"to"`
+}
+
+type jState struct {
+	Index   int       `json:"index"`
+	Items   [][3]int  `json:"items"`
+	Trans   []jTrans  `json:"trans"`
+	Actions []jActRow `json:"actions"`
+}
+
+type jLexAct struct {
+	Type int    `json:"type"`
+	Term int    `json:"term"`
+	Mode string `json:"mode"`
+}
+
+type jNFAEdge struct {
+	Eps bool  `json:"eps"`
+	B   int32 `json:"b"`
+	E   int32 `json:"e"`
+	To  []int `json:"to"`
+}
+
+type jNFAState struct {
+	ID      int        `json:"id"`
+	Accept  bool       `json:"accept"`
+	NG      bool       `json:"ng"`
+	HasActs bool       `json:"has_acts"`
+	Acts    []jLexAct  `json:"acts"`
+	Pos     int        `json:"pos"`
+	File    string     `json:"file"`
+	Edges   []jNFAEdge `json:"edges"`
+}
+
+type jDFAState struct {
+	ID      int        `json:"id"`
+	Accept  bool       `json:"accept"`
+	NG      bool       `json:"ng"`
+	NFA     []int      `json:"nfa"`
+	Trans   [][3]int64 `json:"trans"`
+	HasActs bool       `json:"has_acts"`
+	Acts    []jLexAct  `json:"acts"`
+}
+
+type jMode struct {
+	Name     string      `json:"name"`
+	Index    int         `json:"index"`
+	StartEps []int       `json:"start_eps"`
+	NFA      []jNFAState `json:"nfa"`
+	DFA      []jDFAState `json:"dfa"`
+}
+
+type jDump struct {
+	OK           bool        `json:"ok"`
+	Stage        string      `json:"stage"`
+	Diag         string      `json:"diag"`
+	Terminals    []jTerminal `json:"terminals"`
+	Rules        []jRule     `json:"rules"`
+	Prods        []jProd     `json:"prods"`
+	HasConflicts bool        `json:"has_conflicts"`
+	States       []jState    `json:"states"`
+	Modes        []jMode     `json:"modes"`
+}
+
+func termOf(t lr1.Term) jTerm {
+	switch t := t.(type) {
+	case *lr1.Terminal:
+		return jTerm{T: true, I: t.Index}
+	case *lr1.Rule:
+		return jTerm{T: false, I: t.Index}
+	}
+	panic("bad term")
+}
+
+func lexActs(a *mode.Actions) []jLexAct {
+	var r []jLexAct
+	for _, x := range a.Actions {
+		r = append(r, jLexAct{Type: int(x.Type), Term: x.Terminal, Mode: x.Mode})
+	}
+	return r
+}
+
+func dump(dir string) *jDump {
+	d := &jDump{}
+	var diag strings.Builder
+	fset := gotoken.NewFileSet()
+	errs := errlogger.New(fset, &diag)
+	defer func() { d.Diag = diag.String() }()
+
+	loxFiles, _ := filepath.Glob(filepath.Join(dir, "*.lox"))
+	if len(loxFiles) == 0 {
+		d.Stage = "nofiles"
+		return d
+	}
+	spec := new(ast.Spec)
+	for _, name := range loxFiles {
+		data, err := os.ReadFile(name)
+		if err != nil {
+			d.Stage = "read"
+			return d
+		}
+		file := fset.AddFile(name, -1, len(data))
+		unit := parser.Parse(file, data, errs)
+		if errs.HasError() {
+			d.Stage = "parse"
+			return d
+		}
+		spec.Units = append(spec.Units, unit)
+	}
+	actx := ast.NewContext(fset, errs)
+	actx.Analyze(spec, ast.AllPasses)
+	if errs.HasError() {
+		d.Stage = "analyze"
+		return d
+	}
+	g := actx.Grammar
+	for _, t := range g.Terminals {
+		d.Terminals = append(d.Terminals, jTerminal{t.Index, t.Name, t.Alias})
+	}
+	for _, r := range g.Rules {
+		jr := jRule{Index: r.Index, Name: r.Name, Kind: codegen.VerifRuleGenerated(r.Name)}
+		for _, p := range r.Prods {
+			jr.Prods = append(jr.Prods, p.Index)
+		}
+		fs := lr1.First(g, []lr1.Term{r})
+		fs.ForEach(func(t *lr1.Terminal) {
+			if t == lr1.Epsilon {
+				jr.First = append(jr.First, -1)
+			} else {
+				jr.First = append(jr.First, t.Index)
+			}
+		})
+		sort.Ints(jr.First)
+		d.Rules = append(d.Rules, jr)
+	}
+	for _, p := range g.Prods {
+		jp := jProd{Index: p.Index, Rule: p.Rule.Index, Prec: p.Precedence, Assoc: int(p.Associativity)}
+		if p.Position.IsValid() {
+			jp.Line = fset.Position(p.Position).Line
+		}
+		for _, t := range p.Terms {
+			jp.Terms = append(jp.Terms, termOf(t))
+		}
+		d.Prods = append(d.Prods, jp)
+	}
+	pt := lr1.ConstructLALR(g)
+	d.HasConflicts = pt.HasConflicts
+	for _, s := range pt.States {
+		js := jState{Index: s.Index}
+		for _, it := range s.Items() {
+			js.Items = append(js.Items, [3]int{it.Prod, it.Dot, it.Lookahead})
+		}
+		tr := pt.Transitions(s)
+		for _, in := range tr.Inputs() {
+			js.Trans = append(js.Trans, jTrans{Sym: termOf(in), To: tr.Get(in).Index})
+		}
+		am := pt.Actions(s)
+		for _, t := range am.Terminals() {
+			row := jActRow{Term: t.Index}
+			for _, a := range am.Get(t).Elements() {
+				ja := jAct{Type: int(a.Type)}
+				if a.ShiftState != nil {
+					ja.Shift = a.ShiftState.Index
+				}
+				for _, p := range a.Prods {
+					ja.Prods = append(ja.Prods, p.Index)
+				}
+				row.Acts = append(row.Acts, ja)
+			}
+			js.Actions = append(js.Actions, row)
+		}
+		d.States = append(d.States, js)
+	}
+
+	var names []string
+	for n := range actx.LexerDFAs {
+		names = append(names, n)
+	}
+	sort.Strings(names)
+	for _, n := range names {
+		m := actx.LexerDFAs[n]
+		mb := actx.LexerModes[n]
+		jm := jMode{Name: n, Index: m.Index}
+		// NFA: everything reachable from the rules' begin states.
+		seen := map[*nfa.State]bool{}
+		var order []*nfa.State
+		var stack []*nfa.State
+		for _, r := range mb.Rules {
+			jm.StartEps = append(jm.StartEps, int(r.B.ID))
+			stack = append(stack, r.B)
+		}
+		for len(stack) > 0 {
+			s := stack[len(stack)-1]
+			stack = stack[:len(stack)-1]
+			if seen[s] {
+				continue
+			}
+			seen[s] = true
+			order = append(order, s)
+			s.Transitions.ForEach(func(in any, tos *array.Array[*nfa.State]) {
+				for _, to := range tos.Elements() {
+					stack = append(stack, to)
+				}
+			})
+		}
+		sort.Slice(order, func(i, j int) bool { return order[i].ID < order[j].ID })
+		for _, s := range order {
+			js := jNFAState{ID: int(s.ID), Accept: s.Accept, NG: s.NonGreedy}
+			if a, ok := s.Data.(*mode.Actions); ok {
+				js.HasActs = true
+				js.Acts = lexActs(a)
+				js.Pos = int(a.Pos)
+				if f := fset.File(a.Pos); f != nil {
+					js.File = f.Name()
+				}
+			}
+			s.Transitions.ForEach(func(in any, tos *array.Array[*nfa.State]) {
+				e := jNFAEdge{}
+				if r, ok := in.(rang3.Range); ok {
+					e.B, e.E = int32(r.B), int32(r.E)
+				} else {
+					e.Eps = true
+				}
+				for _, to := range tos.Elements() {
+					e.To = append(e.To, int(to.ID))
+				}
+				js.Edges = append(js.Edges, e)
+			})
+			jm.NFA = append(jm.NFA, js)
+		}
+		for _, s := range m.DFA.States {
+			js := jDFAState{ID: int(s.ID), Accept: s.Accept, NG: s.NonGreedy}
+			for _, ns := range s.NFAStates {
+				js.NFA = append(js.NFA, int(ns.ID))
+			}
+			s.Transitions.ForEach(func(in any, to *dfa.State) {
+				r := in.(rang3.Range)
+				js.Trans = append(js.Trans, [3]int64{int64(r.B), int64(r.E), int64(to.ID)})
+			})
+			if a, ok := s.Data.(*mode.Actions); ok && a != nil {
+				js.HasActs = true
+				js.Acts = lexActs(a)
+			}
+			jm.DFA = append(jm.DFA, js)
+		}
+		d.Modes = append(d.Modes, jm)
+	}
+	d.OK = true
+	d.Stage = "done"
+	return d
+}
+
+type rangeReq struct {
+	Op string     `json:"op"` // flatten | subtract | normalize
+	A  [][2]int32 `json:"a"`
+	B  [][2]int32 `json:"b"`
+}
+
+type rangeResp struct {
+	Out   [][2]int32 `json:"out"`
+	Calls [][]int32  `json:"calls"`
+	Panic string     `json:"panic,omitempty"`
+}
+
+func toRanges(a [][2]int32) []rang3.Range {
+	r := make([]rang3.Range, len(a))
+	for i, x := range a {
+		r[i] = rang3.Range{B: x[0], E: x[1]}
+	}
+	return r
+}
+
+func fromRanges(a []rang3.Range) [][2]int32 {
+	r := make([][2]int32, len(a))
+	for i, x := range a {
+		r[i] = [2]int32{x.B, x.E}
+	}
+	return r
+}
+
+func doRange(req rangeReq) (resp rangeResp) {
+	defer func() {
+		if e := recover(); e != nil {
+			resp.Panic = fmt.Sprint(e)
+		}
+	}()
+	switch req.Op {
+	case "flatten":
+		out := rang3.Flatten(toRanges(req.A), func(oa, ob, n rang3.Range) {
+			resp.Calls = append(resp.Calls, []int32{oa.B, oa.E, ob.B, ob.E, n.B, n.E})
+		})
+		resp.Out = fromRanges(out)
+	case "subtract":
+		resp.Out = fromRanges(rang3.Subtract(toRanges(req.A), toRanges(req.B)))
+	case "normalize":
+		rang3.Normalize(toRanges(req.A), func(o, a, b, c rang3.Range) {
+			resp.Calls = append(resp.Calls, []int32{o.B, o.E, a.B, a.E, b.B, b.E, c.B, c.E})
+		})
+	default:
+		resp.Panic = "bad op"
+	}
+	return
+}
+
+type tableReq struct {
+	Indices []int     `json:"indices"`
+	Rows    [][]int32 `json:"rows"`
+}
+
+type tableResp struct {
+	Arr   []int32 `json:"arr"`
+	Panic string  `json:"panic,omitempty"`
+}
+
+func doTable(req tableReq) (resp tableResp) {
+	defer func() {
+		if e := recover(); e != nil {
+			resp.Panic = fmt.Sprint(e)
+		}
+	}()
+	resp.Arr = codegen.VerifTableArray(req.Indices, req.Rows)
+	return
+}
+
+func main() {
+	if len(os.Args) < 2 {
+		fmt.Fprintln(os.Stderr, "usage: loxverif dump <dir> | ranges | table")
+		os.Exit(2)
+	}
+	out := bufio.NewWriter(os.Stdout)
+	defer out.Flush()
+	enc := json.NewEncoder(out)
+	switch os.Args[1] {
+	case "dump":
+		for _, dir := range os.Args[2:] {
+			func() {
+				defer func() {
+					if e := recover(); e != nil {
+						enc.Encode(&jDump{Stage: "panic", Diag: fmt.Sprint(e)})
+					}
+				}()
+				enc.Encode(dump(dir))
+			}()
+		}
+	case "ranges":
+		dec := json.NewDecoder(bufio.NewReader(os.Stdin))
+		for {
+			var req rangeReq
+			if err := dec.Decode(&req); err != nil {
+				break
+			}
+			enc.Encode(doRange(req))
+		}
+	case "table":
+		dec := json.NewDecoder(bufio.NewReader(os.Stdin))
+		for {
+			var req tableReq
+			if err := dec.Decode(&req); err != nil {
+				break
+			}
+			enc.Encode(doTable(req))
+		}
+	default:
+		os.Exit(2)
+	}
+}
